@@ -89,6 +89,7 @@ type Options struct {
 	ZeroStakes                                                                         bool // genesis identities without stake
 	AllValidated                                                                       bool // genesis identities are all Newbie/Verified/Human
 	EpochNoKills                                                                       bool // synthetic epochs never take a validated status away (no stake burnt)
+	EpochSuspends                                                                      bool // with EpochNoKills: Suspended / Zombie outcomes are kept (nobody is killed, but shard balancing sees suspended identities)
 	Epoch                                                                              EpochMode
 	MempoolCfg                                                                         *config.Mempool
 	Tweak                                                                              func(c *config.ConsensusConf)
